@@ -125,6 +125,14 @@ Definition expected_13 (fn : N) (H : hashfn) (ins : list bytes) (ns : list N) : 
   | 54, [ecdhe], [] => Some [handshake_secret H ecdhe]
   | 55, [hs], [] => Some [master_secret13 H hs]
   | 56, [base], [] => Some [finished_key H base]
+  (* 57/58: key-update chain. 57: secret / key / iv / sn of generation g from application_traffic_secret_0
+     (in = the key-logged secret 0, n = suite, g); 58: the secret of generation g alone *)
+  | 57, [secret0], [id; g] =>
+      match suite13 id with
+      | Some (hc, kl) => Some (generation_keys (hash_of_code hc) secret0 (nn g) kl)
+      | None => None
+      end
+  | 58, [secret0], [g] => Some [traffic_secret_n H secret0 (nn g)]
   | 61, [exp_master; label], [L] => Some [exporter13 H exp_master label [] (nn L)]
   | 64, [], [group] => option_map (fun s => [be_enc 2 s]) (ecdsa_scheme13 group)
   | 63, [label; cr; sr], [L] => Some [p_hash H [] (label ++ cr ++ sr) (nn L)]
